@@ -7,6 +7,7 @@ import (
 
 type classIdx struct {
 	all, residue, probe, long, short, panics []int32
+	fams                                     [][]int32
 	built                                    bool
 }
 
@@ -17,6 +18,7 @@ func buildClasses(c *common.Corpus) {
 		return
 	}
 	classes.built = true
+	classes.fams = Families(c)
 	for i, f := range c.Flags {
 		id := int32(i)
 		classes.all = append(classes.all, id)
@@ -68,7 +70,24 @@ func genRun(c *common.Corpus, seed uint64, cold bool, syncHeavy bool) (*simrt.Ru
 		return pick(r, classes.short, classes.all)
 	}
 	shape := ""
-	switch x := r.Intn(100); {
+	x0 := r.Intn(100)
+	if r.Intn(8) == 0 && len(classes.fams) > 0 {
+		x0 = 1000
+	}
+	switch x := x0; {
+	case x == 1000:
+		// tasks draw from ONE token family with random APIs: concurrent and
+		// ordered lookups of the same tokens by both detectors
+		shape = "token_family"
+		fam := classes.fams[r.Intn(len(classes.fams))]
+		for t := 0; t < nt; t++ {
+			n := 2 + r.Intn(6)
+			var calls []simrt.Call
+			for k := 0; k < n; k++ {
+				calls = append(calls, mk(api(), fam[r.Intn(len(fam))]))
+			}
+			spec.Tasks = append(spec.Tasks, calls)
+		}
 	case x < 30:
 		shape = "uniform"
 		for t := 0; t < nt; t++ {
